@@ -175,14 +175,29 @@ def splitDic (s sep1 sep2 : Bytes) : List (Bytes × Bytes) :=
     | some j => if j > 0 then (dic.filter (·.1 != sub p 0 j)) ++ [(sub p 0 j, sub p (j + sep2.length) p.length)] else dic
     | none => dic) []
 
-/-- index arithmetic of `substr(i, n)`; `none` = the code would index before the buffer (`i < -len`) -/
-def substrIdx (len : Nat) (i : Int) (n : Nat) : Option (Nat × Nat) :=
-  let i := if i < 0 then i + len else i
+/-- two's-complement `int` / `Long`: what an addition or cast of the compiled code yields -/
+def wrap32 (x : Int) : Int := x.bmod 4294967296
+def wrap64 (x : Int) : Int := x.bmod 18446744073709551616
+
+/-- index arithmetic of `substr(int i, int n)` (repaired), every addition the code performs in `int` marked by `wrap32`:
+    `if (i < 0) i += _len; if (i >= _len) i = _len; int j = (n > _len - i) ? _len : i + n;`
+    `none` = the code would index before the buffer (`i < -len`) or ask for a negative size (`n < 0`) -/
+def substrIdx (len : Nat) (i n : Int) : Option (Nat × Nat) :=
+  let i := if i < 0 then wrap32 (i + len) else i
   if i < 0 then none else
-  let i := if i ≥ len then len else i.toNat
-  let j := i + n
-  let j := if j > len then len else j
-  some (i, j)
+  let i := if i ≥ len then (len : Int) else i
+  let j := if n > wrap32 (len - i) then (len : Int) else wrap32 (i + n)
+  if j < i then none else some (i.toNat, j.toNat)
+
+/-- the same with the arithmetic of the code before the repair (`int j = i + n; if (j > _len) j = _len;`):
+    kept only to state what was wrong (`AslProofs.Str.substr_unrepaired_counterexample`) -/
+def substrIdxUnrepaired (len : Nat) (i n : Int) : Option (Nat × Nat) :=
+  let i := if i < 0 then wrap32 (i + len) else i
+  if i < 0 then none else
+  let i := if i ≥ len then (len : Int) else i
+  let j := wrap32 (i + n)
+  let j := if j > len then (len : Int) else j
+  if j < i then none else some (i.toNat, j.toNat)
 
 /-! ### number ↔ text -/
 
@@ -216,22 +231,20 @@ def digitLoop : Bytes → Int → Int
   | [], y => y
   | c :: t, y => if 48 ≤ c ∧ c ≤ 57 then digitLoop t (10 * y + ((c.toNat : Int) - 48)) else y
 
-def wrap32 (x : Int) : Int := x.bmod 4294967296
-def wrap64 (x : Int) : Int := x.bmod 18446744073709551616
-
 /-- sign prefix shared by `myatoi`/`myatol` -/
 def signSplit : Bytes → Int × Bytes
   | 45 :: t => (-1, t)
   | 43 :: t => (1, t)
   | s => (1, s)
 
-/-- `myatoi`: the loop runs in `int`; two's-complement wrap-around (what the compiled code does) is
-    applied to the exact result — `bmod` is a ring homomorphism, so wrapping once at the end is the same. -/
+/-- `myatoi` (repaired): the digits are accumulated in `unsigned` (arithmetic mod 2^32, defined behaviour), negated
+    there and cast to `int` — i.e. the exact value reduced to the two's-complement range; reducing once at the end
+    is the same because `bmod` is a ring homomorphism. -/
 def myatoi (s : Bytes) : Int :=
   let (sgn, t) := signSplit s
   wrap32 (digitLoop t 0 * sgn)
 
-/-- `myatol` in `Long` -/
+/-- `myatol` (repaired): the same in `ULong` / `Long` -/
 def myatol (s : Bytes) : Int :=
   let (sgn, t) := signSplit s
   wrap64 (digitLoop t 0 * sgn)
@@ -306,6 +319,10 @@ def ofBytes (txt : Bytes) : Option Rep :=
   let a := init txt.length
   (wr a.buf 0 txt).bind fun b => (wr b txt.length [0]).map fun b => { a with buf := b }
 
+/-- `String(const Array<char>& txt)` and `String(const ByteArray& txt)`: `n = txt.length(); init(n); memcpy(str(), txt.data(), n); str()[n] = 0;`
+    — statement for statement the same as `String(const char*, int)` -/
+def ofArray (txt : Bytes) : Option Rep := ofBytes txt
+
 /-- `String(const char* txt)`: `init(strlen(txt)); memcpy(str(), txt, _len + 1);` -/
 def ofCStr (txt : Bytes) : Option Rep :=
   let a := init txt.length
@@ -322,7 +339,8 @@ def ofChar (c : UInt8) : Option Rep :=
   (wr a.buf 0 [c, 0]).map fun b => { a with buf := b }
 
 /-- `String::repeat(c, n)`: `String s(n, n); memset(p, c, n); p[n] = 0;` -/
-def repeatChar (c : UInt8) (n : Nat) : Option Rep :=
+def repeatChar (c : UInt8) (n0 : Int) : Option Rep :=
+  let n := if n0 < 0 then 0 else n0.toNat          -- `if (n < 0) n = 0;`
   (ctor2 n n).bind fun s => (wr s.buf 0 (List.replicate n c)).bind fun b =>
     (wr b n [0]).map fun b => { s with buf := b }
 
@@ -416,7 +434,7 @@ def substring (r : Rep) (i j : Nat) : Option Rep :=
   else none
 
 /-- `substr(i, n)` -/
-def substr (r : Rep) (i : Int) (n : Nat) : Option Rep :=
+def substr (r : Rep) (i n : Int) : Option Rep :=
   (substrIdx r.len i n).bind fun (i, j) => r.substring i j
 
 /-- `clear()`: `_len = 0; str()[0] = 0;` -/
@@ -432,6 +450,19 @@ def startsWith (r : Rep) (p : Bytes) : Bool := r.len ≥ p.length && strncmp p.l
 /-- `endsWith(const String& s)`: `_len >= s.length() && strncmp(str() + _len - s.length(), s, s.length()) == 0` -/
 def endsWith (r : Rep) (p : Bytes) : Bool :=
   r.len ≥ p.length && strncmp p.length (r.view.drop (r.len - p.length)) p == 0
+
+/-- `operator==(const String& s)`: `(_len != s._len) ? false : !memcmp(str(), s.str(), _len)` -/
+def eq (r s : Rep) : Bool := if r.len != s.len then false else r.buf.take r.len == s.buf.take r.len
+
+/-- `operator!=(const String& s)`: `(_len != s._len) ? true : memcmp(str(), s.str(), _len) != 0` -/
+def ne (r s : Rep) : Bool := if r.len != s.len then true else r.buf.take r.len != s.buf.take r.len
+
+/-- `compare(const String& s)`: sign of `strcmp(str(), s.str())`; `operator<` is `compare < 0` -/
+def compare (r s : Rep) : Int := strcmp r.view s.view
+def lt (r s : Rep) : Bool := r.compare s < 0
+
+/-- `operator==(const char* s)`: `!strcmp(str(), s)` -/
+def eqCStr (r : Rep) (s : Bytes) : Bool := strcmp r.view s == 0
 
 /-- `trim()`: `memmove(s, s+i, j-i+1); s[j-i+1] = 0; _len = j-i+1;` (`J = j+1`) -/
 def trim (r : Rep) : Option Rep :=
@@ -459,6 +490,21 @@ decreasing_by
   omega
 
 def split (r : Rep) (sep : Bytes) : Option (List Rep) := splitLoop r sep 0
+
+/-- `split()` by blanks on the representation: the loops of `splitWsLoop`, each token built by `a << substring(i, j)` -/
+def splitWsLoop (r : Rep) (i : Nat) : Option (List Rep) :=
+  if h : i ≤ r.toList.length then
+    if i = r.toList.length then some []
+    else if isSpace (r.toList.getD i 0) then splitWsLoop r (i + 1)
+    else
+      let j := tokEnd r.toList (i + 1)
+      (r.substring i j).bind fun p => (splitWsLoop r (j + 1)).map fun t => p :: t
+  else some []
+termination_by r.toList.length + 1 - i
+decreasing_by
+  all_goals (try unfold tokEnd); omega
+
+def splitWs (r : Rep) : Option (List Rep) := splitWsLoop r 0
 
 /-- `Array<String>::join(sep)`: `if (n == 0) return ""; String s = a[0]; for (i = 1..) { s += sep; String v = a[i]; s += v; }` -/
 def joinLoop (sep : Rep) (acc : Rep) : List Rep → Option Rep
@@ -516,6 +562,18 @@ def ofBool (x : Bool) : Option Rep :=
     writes `min(|text|, space-1)` bytes and a NUL, returns `|text|` -/
 def vsnprintf (buf : Bytes) (space : Nat) (text : Bytes) : Option Bytes :=
   if space = 0 then some buf else wr buf 0 (text.take (min text.length (space - 1)) ++ [0])
+
+/-- `String(float x)`: `alloc(15); _len = snprintf(str(), cap(), "%.7g", x);` — `text` is the complete `%.7g` output
+    (libc formatting is a parameter of the model) -/
+def ofFloat (text : Bytes) : Option Rep :=
+  let a := alloc Gen.Str.floatAlloc
+  (vsnprintf a.buf a.cap text).map fun b => { a with buf := b, len := text.length }
+
+/-- `String(double x)`: `char s[32]; _len = snprintf(s, 32, "%.15g", x); alloc(_len); strcpy(str(), s);` -/
+def ofDouble (text : Bytes) : Option Rep :=
+  (vsnprintf (fresh Gen.Str.doubleStack) Gen.Str.doubleStack text).bind fun s =>
+    let a := alloc text.length
+    (wr a.buf 0 (cstr s ++ [0])).map fun b => { a with buf := b, len := text.length }
 
 /-- `while (((n = vsnprintf(str(), space, …)) == -1 || n >= space) && ++i < 10) { resize(n >= space ? n : 2*space, false); space = _size ? _size : 16; }`
     `tries` = remaining values of `i` -/
